@@ -1,0 +1,109 @@
+//go:build verif
+
+// Contracts for package algo, read by the gowp verification-condition
+// generator (/verif). This file contains comments only: it adds no symbol and
+// does not change the compiled program with the build tag on or off.
+
+package algo
+
+// ---------------------------------------------------------------- vocabulary
+//@ spec func normtab(r rune) rune = mapget(normalized, r)
+//@ spec func norm(r rune) rune = (r < 192 || r > 8580) ? r : (normtab(r) > 0 ? normtab(r) : r)
+//@ spec func lowerc(r rune) rune = (65 <= r && r <= 90) ? r + 32 : (r > 127 ? lower(r) : r)
+//@ spec func foldc(cs bool, nz bool, r rune) rune = nz ? norm(cs ? r : lowerc(r)) : (cs ? r : lowerc(r))
+//@ spec func hitp(c *util.Chars, i int, p []rune, k int, cs bool, nz bool) bool = foldc(cs, nz, at(c, i)) == p[k]
+
+// Global tables: the ranges below hold in the zero state and after Init().
+//@ globalinv forall(c, 0, 128, 0 <= asciiCharClasses[c] && asciiCharClasses[c] <= 6)
+//@ globalinv forall(i, 0, 7, forall(j, 0, 7, 0 <= bonusMatrix[i][j] && bonusMatrix[i][j] <= 10))
+//@ globalinv 0 <= initialCharClass && initialCharClass <= 6
+//@ globalinv 8 <= bonusBoundaryWhite && bonusBoundaryWhite <= 10 && 8 <= bonusBoundaryDelimiter && bonusBoundaryDelimiter <= 9
+
+//@ func indexAt
+//@ property C02
+//@ ensures result == (forward ? index : max - index - 1)
+
+//@ func posArray
+//@ property C02
+//@ requires 0 <= len && len <= 2147483648
+//@ ensures withPos ==> result != nil && fresh(result) && len(*result) == 0 && cap(*result) == len
+//@ ensures !withPos ==> result == nil
+
+// alloc16/alloc32 hand out uncleared slab memory: the contents of a carved
+// slice are arbitrary and count as uninitialised (init bits havoc'd); a slice
+// from make() is zeroed and initialised.
+//@ func alloc16
+//@ property C02 C05
+//@ requires 0 <= offset && 0 <= size && size <= 4294967296 && offset <= 4294967296
+//@ modifies init(slab.I16[offset:offset+size])
+//@ ensures len(r1) == size
+//@ ensures slab != nil && cap(slab.I16) > offset + size ==> r0 == offset + size && r1 == old(slab.I16[offset:offset+size])
+//@ ensures !(slab != nil && cap(slab.I16) > offset + size) ==> r0 == offset && fresh(r1) && r1.off == 0 && init(r1, 0, size) && forall(k, 0, size, r1[k] == 0)
+
+//@ func alloc32
+//@ property C02 C05
+//@ requires 0 <= offset && 0 <= size && size <= 4294967296 && offset <= 4294967296
+//@ modifies init(slab.I32[offset:offset+size])
+//@ ensures len(r1) == size
+//@ ensures slab != nil && cap(slab.I32) > offset + size ==> r0 == offset + size && r1 == old(slab.I32[offset:offset+size])
+//@ ensures !(slab != nil && cap(slab.I32) > offset + size) ==> r0 == offset && fresh(r1) && r1.off == 0 && init(r1, 0, size) && forall(k, 0, size, r1[k] == 0)
+
+//@ func charClassOfNonAscii
+//@ property C02
+//@ ensures 0 <= result && result <= 6
+
+//@ func charClassOf
+//@ property C02
+//@ requires 0 <= char
+//@ ensures 0 <= result && result <= 6
+
+//@ func bonusFor
+//@ property C02 C03
+//@ ensures 0 <= result && result <= 10
+
+//@ func bonusAt
+//@ property C02
+//@ requires input != nil && validChars(input) && 0 <= idx && idx < clen(input)
+//@ ensures 0 <= result && result <= 10
+
+//@ func normalizeRune
+//@ property C02
+//@ ensures result == norm(r)
+
+//@ func isAscii
+//@ property C02
+//@ ensures result == forall(k, 0, len(runes), runes[k] < 128)
+//@ loop 1
+//@   invariant forall(k, 0, iter, runes[k] < 128)
+
+//@ spec func hitb(c *util.Chars, k int, b byte, cs bool) bool = c.slice[k] == b || (!cs && 97 <= b && b <= 122 && c.slice[k] == b - 32)
+//@ spec func validRunes(p []rune) bool = forall(k, 0, len(p), 0 <= p[k] && p[k] <= 1114111)
+
+//@ func trySkip
+//@ property C02
+//@ requires input != nil && input.inBytes && 0 <= from && from <= clen(input)
+//@ ensures result == -1 || (from <= result && result < clen(input) && hitb(input, result, b, caseSensitive))
+//@ ensures forall(k, from, result == -1 ? clen(input) : result, !hitb(input, k, b, caseSensitive))
+
+// The window returned for byte input: nothing that can start a match lies
+// before r0, and no occurrence (in either case) of the last pattern character
+// lies at or after r1 - so every embedding of the pattern lies inside [r0, r1).
+//@ func asciiFuzzyIndex
+//@ property C02 C03 C05
+//@ requires input != nil && validChars(input) && len(pattern) >= 1 && validRunes(pattern)
+//@ ensures !input.inBytes ==> r0 == 0 && r1 == clen(input)
+//@ ensures r0 < 0 ==> r0 == -1 && r1 == -1
+//@ ensures input.inBytes && r0 >= 0 ==> r0 < r1 && r1 <= clen(input) && forall(k, 0, len(pattern), pattern[k] < 128)
+//@ ensures input.inBytes && r0 >= 0 ==> forall(k, 0, r0, !hitb(input, k, byte(pattern[0]), caseSensitive))
+//@ ensures input.inBytes && r0 >= 0 ==> hitb(input, r1 - 1, byte(pattern[len(pattern)-1]), caseSensitive)
+//@ ensures input.inBytes && r0 >= 0 ==> forall(k, r1, clen(input), !hitb(input, k, byte(pattern[len(pattern)-1]), caseSensitive))
+//@ loop 1
+//@   invariant 0 <= pidx && pidx <= len(pattern) && 0 <= idx && idx <= clen(input) && 0 <= firstIdx
+//@   invariant pidx >= 1 ==> lastIdx == idx - 1 && 0 <= lastIdx && hitb(input, lastIdx, b, caseSensitive) && b == byte(pattern[pidx-1]) && firstIdx <= lastIdx
+//@   invariant pidx == 0 ==> firstIdx == 0 && idx == 0
+//@   invariant forall(k, 0, firstIdx, !hitb(input, k, byte(pattern[0]), caseSensitive))
+//@   decreases len(pattern) - pidx
+//@ loop 2
+//@   invariant 0 <= offset && offset < len(scope)
+//@   invariant forall(k, lastIdx + offset + 1, clen(input), !hitb(input, k, b, caseSensitive))
+//@   decreases offset
